@@ -121,6 +121,9 @@ func joinOr(l []string, sep string) string {
 // Query issues a query on the primary and records it.
 func (s *Sim) Query(path string, data []byte, h int64) *Rec {
 	o := s.N.Query(path, data, h)
+	if s.Obs != nil && o.Panic == "" {
+		s.Obs.OnQuery(s, path, data, h, CanonQuery(path, o))
+	}
 	return s.add(&Rec{Kind: "query", Line: fmt.Sprintf("query path=%s data=%s h=%d", path, appdrv.Hex(data), h), Out: CanonQuery(path, o), Note: o.Log})
 }
 
